@@ -74,6 +74,19 @@ theorem C16_stops_at_first_failure {W S R E} (exec : W → S → W × Except E R
     runAll exec w (a ++ s :: rest) = (w2, ra, some e) :=
   runAll_append_fail exec w a s rest w1 ra ha w2 e hs
 
+/-- **Inside an open transaction**: `begin; insert …; insert …; <failing statement>; …` leaves the transaction OPEN
+    with every earlier insert applied in it (visible to the same connection, to be committed or rolled back by the
+    caller) — exactly what one-by-one execution leaves; `execute_string` does not roll back on failure. -/
+theorem C16_open_transaction_kept (c ns : List Nat) (rest : List TxS) :
+    runAll txExec ⟨c, none⟩ (.begin :: ns.map .ins ++ .fail :: rest) =
+      (⟨c, some (c ++ ns)⟩, () :: ns.map (fun _ => ()), some ()) := by
+  have ha : runAll txExec ⟨c, none⟩ (.begin :: ns.map .ins) = (⟨c, some (c ++ ns)⟩, () :: ns.map (fun _ => ()), none) := by
+    simp [runAll, txExec, runAll_tx_inserts]
+  exact C16_stops_at_first_failure txExec ⟨c, none⟩ (.begin :: ns.map .ins) .fail rest _ _ ha _ () rfl
+
+example : (runAll txExec ⟨[1], none⟩ [.begin, .ins 2, .fail, .ins 3]).1 = ⟨[1], some [1, 2]⟩ ∧
+    (runAll txExec ⟨[1], none⟩ [.begin, .ins 2, .fail, .ins 3, .rollback]).1 = ⟨[1], some [1, 2]⟩ := by decide
+
 /-- **One cursor each**: when no statement fails there are exactly as many results as statements. -/
 theorem C16_one_cursor_each {W S R E} (exec : W → S → W × Except E R) (w : W) (ss : List S)
     (h : (runAll exec w ss).2.2 = none) : (runAll exec w ss).2.1.length = ss.length :=
